@@ -32,7 +32,20 @@ func fetchProject(repo repoFiles, pk maven.ProjectKey) (maven.Project, error) {
 	return proj, nil
 }
 
-func mergeParents(repo repoFiles, current maven.ProjectKey, start int, result *maven.Project) error {
+// fetchFn is the example's fetchProject bound to a repository; activation is the JDK/OS
+// the profiles of fetched parents are activated for.
+type fetchFn func(pk maven.ProjectKey) (maven.Project, error)
+
+type activation struct {
+	jdk string
+	os  maven.ActivationOS
+}
+
+func libActivation() activation {
+	return activation{maven.JDKProfileActivation, maven.OSProfileActivation}
+}
+
+func mergeParents(fetch fetchFn, act activation, current maven.ProjectKey, start int, result *maven.Project) error {
 	visited := make(map[maven.ProjectKey]bool, resolve.MaxMavenParent)
 	for n := start; n < resolve.MaxMavenParent; n++ {
 		if current.GroupID == "" || current.ArtifactID == "" || current.Version == "" {
@@ -43,14 +56,14 @@ func mergeParents(repo repoFiles, current maven.ProjectKey, start int, result *m
 		}
 		visited[current] = true
 
-		proj, err := fetchProject(repo, current)
+		proj, err := fetch(current)
 		if err != nil {
 			return err
 		}
 		if n > 0 && proj.Packaging != "pom" {
 			return fmt.Errorf("invalid packaging for parent project %s", proj.Packaging)
 		}
-		if err := proj.MergeProfiles(maven.JDKProfileActivation, maven.OSProfileActivation); err != nil {
+		if err := proj.MergeProfiles(act.jdk, act.os); err != nil {
 			return err
 		}
 		result.MergeParent(proj)
@@ -86,25 +99,36 @@ func runPom(l *Lineage) string {
 			repo[pk] = l.Repo[i].Render()
 		}
 	}
+	fetch := func(pk maven.ProjectKey) (maven.Project, error) { return fetchProject(repo, pk) }
+	project, ok := documentedPipeline(l.Root.Render(), fetch, libActivation(), 1)
+	if !ok {
+		return "err"
+	}
+	return "ok deps=" + fmtDeps(project.Dependencies) + " mgmt=" + fmtDeps(project.DependencyManagement.Dependencies)
+}
+
+// documentedPipeline: decode the root, MergeProfiles, mergeParents(parent, rootStart),
+// ProcessDependencies with the example's import callback.
+func documentedPipeline(rootText string, fetch fetchFn, act activation, rootStart int) (maven.Project, bool) {
 	var project maven.Project
-	if err := xml.NewDecoder(strings.NewReader(l.Root.Render())).Decode(&project); err != nil {
-		return "err"
+	if err := xml.NewDecoder(strings.NewReader(rootText)).Decode(&project); err != nil {
+		return project, false
 	}
-	if err := project.MergeProfiles(maven.JDKProfileActivation, maven.OSProfileActivation); err != nil {
-		return "err"
+	if err := project.MergeProfiles(act.jdk, act.os); err != nil {
+		return project, false
 	}
-	if err := mergeParents(repo, project.Parent.ProjectKey, 1, &project); err != nil {
-		return "err"
+	if err := mergeParents(fetch, act, project.Parent.ProjectKey, rootStart, &project); err != nil {
+		return project, false
 	}
 	project.ProcessDependencies(func(groupID, artifactID, version maven.String) (maven.DependencyManagement, error) {
 		var result maven.Project
 		root := maven.ProjectKey{GroupID: groupID, ArtifactID: artifactID, Version: version}
-		if err := mergeParents(repo, root, 0, &result); err != nil {
+		if err := mergeParents(fetch, act, root, 0, &result); err != nil {
 			return maven.DependencyManagement{}, err
 		}
 		return result.DependencyManagement, nil
 	})
-	return "ok deps=" + fmtDeps(project.Dependencies) + " mgmt=" + fmtDeps(project.DependencyManagement.Dependencies)
+	return project, true
 }
 
 // runInterp is the `interp` op: `interpolating` is unexported, so the string is put
